@@ -13,8 +13,18 @@ fn save(data: &[u8], msg: &str) {
     eprintln!("FUZZ-VIOLATION property={} replay={}", prop, path.display());
 }
 
+fn mode() -> (bool, bool) {
+    // FUZZ_ORACLE=C05 | C07 selects the active oracle (default: both)
+    match std::env::var("FUZZ_ORACLE").ok().as_deref() {
+        Some("C05") => (true, false),
+        Some("C07") => (false, true),
+        _ => (true, true),
+    }
+}
+
 fuzz_target!(|data: &[u8]| {
-    let r = std::panic::catch_unwind(|| fixture::fuzzing::stream_case(data));
+    let (c05, c07) = mode();
+    let r = std::panic::catch_unwind(|| fixture::fuzzing::stream_case_for(data, c05, c07));
     match r {
         Ok(Ok(_)) => {}
         Ok(Err(msg)) => {
@@ -22,8 +32,11 @@ fuzz_target!(|data: &[u8]| {
             panic!("{}", msg);
         }
         Err(_) => {
-            save(data, "C05: panic inside run/process");
-            panic!("C05: panic inside run/process");
+            if c05 {
+                save(data, "C05: panic inside run/process");
+                std::process::abort();
+            }
+            // a panic is C05's business: ignore it in a C07 campaign so that the search goes on
         }
     }
 });
